@@ -34,7 +34,8 @@ def cases(tier, seed):
                 for m in MET:
                     if q and d == 'perpendicular' and m not in ('smape', 'r2'):
                         continue
-                    out.append(dict(layer='L0', nra_at_decide=False, fn='rdp', curve=ci, pos=pos, distance=d, metric=m))
+                    out.append(dict(layer='L0', nra_at_decide=False, fn='rdp', curve=ci, pos=pos, distance=d, metric=m,
+                                    second_metric=({'smape': 'r2', 'r2': 'rpd'}.get(m) if (len(POOL[ci]) <= 5 and d == 'shortest') else None)))
     for d in DIST:
         for m in (('smape', 'rpd') if q else MET):
             for pos in ([[3]] if q else [[1], [2], [3]]):
@@ -109,7 +110,7 @@ def run(h, case):
         n = case['n']
         pts = tagged_points(h, n)
         st = Stubs(h, n)
-        with patched(h, st):
+        with patched(h, st, requested=case.get('distance', 'shortest')):
             red = h.ints(rdp.rdp(pts, t, dist_enum, cost_enum)[0])
             check_partition(h, red, n, metric, t, lambda a, b: st.cost(a, b), lambda l, r: [st.d(l, r, i) for i in range(l, r + 1)])
         return red
@@ -132,6 +133,15 @@ def run(h, case):
         seg = pts[l:r + 1]
         return h.vals(dfn(seg, seg[0], seg[-1]))
     check_partition(h, red, n, metric, t, cost, dist)
+    if case.get('second_metric'):
+        # history: the same array object simplified again under another metric (anything remembered between calls must be keyed by all arguments)
+        metric2 = case['second_metric']
+        cost_enum = getattr(M, metric2)
+        memo.clear()
+        t2 = h.real('t2')
+        h.assume(band(t2 > 0, t2 <= 1) if metric2 == 'r2' else t2 > 0, 't2 > 0 (<= 1 for R2)')
+        red2 = h.ints(rdp.rdp(pts, h.num(t2), dist_enum, cost_enum)[0])
+        check_partition(h, red2, n, metric2, t2, cost, dist)
     h.prove(not h.writes(), 'arguments unmodified')
     return red
 
